@@ -84,7 +84,10 @@ def run(ctx):
                 "time; names chosen so that the name tie-break differs from input order; root namespace sometimes a "
                 "workload namespace; present-but-empty selectors and port-level on selector-less policies as malformed "
                 "input) followed by 1-3 workload queries (labels aimed at a selector policy two times in three) over ports "
-                "{80, 8080, 9000, 7777}; distinct = hash of (ops, implementation outputs); non-trivial = at least one policy")
+                "{80, 8080, 9000, 7777} (stream compose: all resolvers + client decision; stream ambient: attached ztunnel policies + "
+                "direct calls of the hooked conversion functions on arbitrary arguments; stream inbound: the real virtualInbound "
+                "listener of a sidecar with services on 80 HTTP / 8080 TCP / 9090 auto); plus the 12 (mode, protocol) rows of the "
+                "real filter-chain table; distinct = hash of (ops, implementation outputs); non-trivial = at least one policy")
     ctx.assumptions = [
         "(namespace, name) identifies a PeerAuthentication (hypothesis UniqueKeys of the theorems; true for Kubernetes resources)",
         "Envoy evaluates filter_chain_match.transport_protocol as documented; ztunnel evaluates Authorization policies as "
@@ -123,7 +126,7 @@ def run(ctx):
                                "generated_table": open(GENERATED).read()}, True)
     if not ctx.build_drv():
         return
-    sizes = {"compose": ctx.n(20000, 400000), "ambient": ctx.n(20000, 400000), "inbound": ctx.n(500, 12000)}
+    sizes = {"compose": ctx.n(20000, 300000), "ambient": ctx.n(20000, 300000), "inbound": ctx.n(500, 8000)}
     for stream in STREAMS:
         ctx.diff_stream(stream, sizes[stream], oracle=oracle, nontrivial=nontrivial)
     # second line: the oracle on every corpus and generated case, independent of the model
@@ -178,15 +181,25 @@ def replay(ctx, path):
 
 
 MANIFEST = {
-    "level_text": ("Lean 4 proof: the PeerAuthentication precedence code (sort by creation time, namespace/mesh singleton, "
-                   "selector matching, ComposePeerAuthentication, GetMutualTLSModeForPort, GetNamespaceMutualTLSMode, "
-                   "checkMtlsEnabled) is modelled exactly and proved equal to the declarative effectiveMode for all policy "
-                   "lists, workloads and ports (compose_eq_spec, namespace_mode_agrees, client_agrees, order independence). "
-                   "The model is tied to /repo on every run by a line-by-line differential against the real functions."),
-    "level_note": ("Trusted: Lean kernel + {propext, Classical.choice, Quot.sound}; the hand-written model (tied by differential "
-                   "testing, ~20000 cases quick); the verif-tagged accessor files zz_verif_c10.go; Envoy/ztunnel matching semantics "
-                   "are Lean definitions written from documentation. Not modelled: TLS context contents, waypoint service-namespace "
-                   "lookup (tied by T-diff only), DestinationRule subsets/port-level TLS settings."),
-    "technique": "Lean 4 theorems over an exact model of the precedence resolvers + differential correspondence with the real Go functions",
+    "level_text": ("Lean 4 proof: the PeerAuthentication precedence code (sort by creation time, namespace/mesh singleton, selector "
+                   "matching, ComposePeerAuthentication, GetMutualTLSModeForPort, GetNamespaceMutualTLSMode, checkMtlsEnabled), the "
+                   "inbound filter-chain table and virtualInbound listener, and the ambient conversion (fetchPeerAuthentications, "
+                   "convertedSelectorPeerAuthentications, convertPeerAuthentication, PeerAuthDerivedPolicies) are modelled exactly. "
+                   "Proved for all policy lists, workloads and ports: compose_eq_spec (resolver = declarative effectiveMode, ties by "
+                   "the real comparator), namespace_mode_agrees, client_agrees, order independence, inbound_enforces / "
+                   "inbound_listener_enforces (every destination port, service or not), ambient_strict_exact (ztunnel rejects an "
+                   "unauthenticated peer iff the effective mode is STRICT, for every krt enumeration order), "
+                   "ambient_never_rejects_authenticated. Tied to /repo on every run by three line-by-line differentials against the "
+                   "real functions (incl. the real LDS generator and the real ambient PolicyCollections) and one regenerated table."),
+    "level_note": ("Trusted: Lean kernel + {propext, Classical.choice, Quot.sound}; the hand-written model (tied by differential testing: "
+                   "~40500 cases quick, ~610000 thorough, plus a 16-row generated table proved equal by decide); four verif-tagged "
+                   "accessor files zz_verif_c10.go; Envoy filter-chain selection and ztunnel DENY-policy semantics are Lean definitions "
+                   "written from documentation (no data-plane binary). Hypotheses: (namespace,name) unique, port-level settings are a map, "
+                   "no port-level entry for port 0, no waypoint service namespaces in the theorems (T-diff only). Not modelled: TLS context "
+                   "contents beyond require_client_certificate, listener filters, HBONE, Sidecar-ingress user TLS, DestinationRule subsets. "
+                   "Five defects of the pinned tree (F2, F3, F10, F11, F12) were repaired by fix: commits; their witnesses stay in the corpus "
+                   "and as ..._witness_unfixed theorems."),
+    "technique": ("Lean 4 theorems over an exact model (precedence resolvers, filter-chain table, ambient conversion) + differential "
+                  "correspondence with the real Go functions + kernel-checked generated table + independent property oracle"),
     "design_ref": "DESIGN.md section 5 C10",
 }
